@@ -51,6 +51,9 @@ func (fv *FV) assumeSpecG(st *State, e *Expr, env *Env, guard string, depth int)
 		return
 	case e.Op == "bin" && e.Name == "==>":
 		a := fv.skolemAntecedent(st, e.Args[0], env, depth+1)
+		if strings.Contains(a, unknownTypeID) {
+			return
+		}
 		g := a
 		if guard != "" {
 			g = fmt.Sprintf("(and %s %s)", guard, a)
@@ -114,6 +117,9 @@ func (fv *FV) evalGoal(st *State, e *Expr, env *Env, depth int) string {
 		return fmt.Sprintf("(and %s %s)", fv.evalGoal(st, e.Args[0], env, depth+1), fv.evalGoal(st, e.Args[1], env, depth+1))
 	case e.Op == "bin" && e.Name == "==>":
 		// goal skolems of the consequent first, so that the antecedent can be instantiated at them
+		if a0 := fv.evalBool(e.Args[0], env); strings.Contains(a0, unknownTypeID) {
+			return "true"
+		}
 		cons := fv.evalGoal(st, e.Args[1], env, depth+1)
 		return fmt.Sprintf("(=> %s %s)", fv.strengthen(st, e.Args[0], env, 0), cons)
 	case e.Op == "call":
